@@ -407,6 +407,24 @@ func (e *env) runBatch(b *Batch, out *json.Encoder) {
 			o["observed"] = "other"
 			o["body"] = string(body[:min(len(body), 200)])
 		}
+		// a request that is refused must not be handed a session either: whatever
+		// cookie the refusal sets is presented with the same request once more
+		if o["observed"] == "refuse" {
+			for _, c := range (&http.Response{Header: h}).Cookies() {
+				if c.Name == "authcookie" && c.Value != "" {
+					code2, h2, body2, _ := e.get(w, path, "", c.Value)
+					o["renewed"] = code2
+					if code2 == 200 || code2 == 202 {
+						o["observed"] = "serve"
+						o["status"] = code2
+						o["viaRenewedCookie"] = true
+						if code2 == 200 {
+							o["rows"] = rowsIn(h2, body2)
+						}
+					}
+				}
+			}
+		}
 		hres = append(hres, o)
 	}
 	res["http"] = hres
